@@ -77,6 +77,36 @@ mod tests {
         }
     }
 
+    /// C08: "an announce that uses an existing peer id from another connection has no effect on
+    /// the entry - neither at once nor when that other connection later closes". The socket
+    /// worker records the peer id of every announce a connection sends (also ignored ones) and
+    /// names them all in ConnectionClosed; the storage must remove only entries the closed
+    /// connection created.
+    #[test]
+    fn c08_close_of_non_owner_keeps_entry() {
+        let config = Config::default();
+        let mut maps = TorrentMaps::new(0);
+        let mut rng = SmallRng::seed_from_u64(1);
+        let mut out = Vec::new();
+        let start = ServerStartInstant::new();
+        let (h, pid) = ([7u8; 20], [9u8; 20]);
+        let (owner, intruder) = (meta(0, 5), meta(0, 6));
+        maps.handle_announce_request(&config, &mut rng, &mut out, start, owner, req(h, pid, Some(AnnounceEvent::Started), Some(0)));
+        out.clear();
+        // ignored announce from another connection using the victim's peer id ...
+        maps.handle_announce_request(&config, &mut rng, &mut out, start, intruder, req(h, pid, None, Some(5)));
+        assert!(out.is_empty());
+        // ... which then closes: ConnectionClosed names (h, pid) with the intruder's identity
+        maps.handle_connection_closed(InfoHash(h), PeerId(pid), IpVersion::V4, intruder.out_message_consumer_id, intruder.connection_id);
+        maps.handle_announce_request(&config, &mut rng, &mut out, start, meta(0, 7), req(h, [3u8; 20], None, Some(5)));
+        assert_eq!(counts(&out), (1, 1), "the victim's entry must survive the close of a connection that does not own it");
+        out.clear();
+        // the owner's own close removes it
+        maps.handle_connection_closed(InfoHash(h), PeerId(pid), IpVersion::V4, owner.out_message_consumer_id, owner.connection_id);
+        maps.handle_announce_request(&config, &mut rng, &mut out, start, meta(0, 7), req(h, [3u8; 20], None, Some(5)));
+        assert_eq!(counts(&out), (0, 1));
+    }
+
     fn counts(out: &[(OutMessageMeta, OutMessage)]) -> (usize, usize) {
         match &out.last().unwrap().1 {
             OutMessage::AnnounceResponse(r) => (r.complete, r.incomplete),
